@@ -16,6 +16,30 @@ CLAIMED = {
        "BUFFER_SIZE=0 is outside the quantifier (the Python loop does not terminate there; the model returns 'diverge').",
   technique="Lean 4 proof (loop invariants by fun_induction over a FileM effect model) + model/implementation trace correspondence",
   ref="DESIGN.md §5 C11"),
+
+ "C14": dict(
+  text="Lean 4 theorems (Props/C14.lean) over the model of BitPaddedInt.to_str / BitPaddedInt(bytes|int) / has_valid_padding and unsynch.encode/decode: "
+       "for every bits in 1..8, width, endianness and every non-negative integer that fits, decode(encode v) = v with exactly `width` bytes and clear "
+       "padding bits; values that do not fit and negative values are rejected with ValueError (for every width, the growing width -1 included); "
+       "growing integers round-trip with minimal length; for every byte string unsynch.decode(unsynch.encode s) = s and the encoding has no false "
+       "sync. Full strength. Correspondence: exhaustive small integers x bits x widths x endianness, carry lattice to 2**35, all strings over the "
+       "8-letter sync alphabet up to length 5/7, random long strings; tag-level reading of hand-built unsynchronised v2.3/v2.4 tags is checked on the "
+       "real code only (searched, not modelled).",
+  note="Trusted: Lean kernel; axioms propext/Classical.choice/Quot.sound; the state-machine formulation of unsynch is tied to the split(b'\\xff') code by "
+       "exhaustive correspondence; bits outside 1..8 and has_valid_padding on negative ints (non-terminating) are outside the quantifier.",
+  technique="Lean 4 proof (induction over digits / two-state list machines) + exhaustive model/implementation correspondence",
+  ref="DESIGN.md §5 C14"),
+ "C15": dict(
+  text="Lean 4 theorems (Props/C15.lean) over the model of OggPage.from_packets/to_packets/write/size: for EVERY packet list, sequence start, "
+       "255 <= default_size, wiggle room (and for every page-filling policy) reassembly of the produced pages gives the packets back; to_packets' "
+       "own serial/sequence/continuation checks never fire on them (strict and non-strict); sequence numbers are consecutive, continuation flags "
+       "consistent; with the code's policy and default_size <= 65024 every page needs <= 255 lacing values; size = length of the rendered page. "
+       "Partial: parse(render p) = p and the replace/renumber refinement are not yet theorems - they are decided by the correspondence and by an "
+       "independent RFC 3533 walker/CRC on the real output (CRC model checked against libogg-written sample files).",
+  note="Trusted: Lean kernel; standard axioms; extract.py (default_size/wiggle_room regenerated); correspondence of page layouts (flags, numbers, packet "
+       "lengths), rendered bytes and to_packets results incl. error classes; zlib.crc32 is not modelled - the model's CRC is the RFC's.",
+  technique="Lean 4 proof (loop invariants of from_packets by fun_induction) + page-layout correspondence + independent RFC 3533 walker",
+  ref="DESIGN.md §5 C15"),
 }
 
 PENDING_REASON = "not claimed yet in this revision: the Lean model and theorems for this property are still being built (see DESIGN.md §7 build order); it is not 'not applicable' in principle"
